@@ -87,7 +87,7 @@ def model_requests(case, obs):
         for o in _sched_outcomes(obs):
             f = o.get("final") or {"running": False, "shutdown_requested": False, "thread_alive": False,
                                    "socket_open": False}
-            reqs.append({"op": "lifecycle.replay", "threads": case["threads"],
+            reqs.append({"op": "lifecycle.replay", "threads": [[x for x in t if x != "pause"] for t in case["threads"]],
                          "events": [{"k": e["k"], "t": e["t"]} for e in o.get("events", [])]})
             reqs.append(dict({"op": "lifecycle.end"}, **{x: f[x] for x in ("running", "shutdown_requested",
                                                                           "thread_alive", "socket_open")}))
@@ -317,6 +317,13 @@ def gen_lifecycle_sched(rng, tier, mult=1):
             for server in ("tftp", "http"):
                 yield {"kind": "lifecycle_sched", "server": server, "threads": [PROGRAMS[x] for x in t],
                        "order": [0, 1, 2], "sweep": [k, chunks], "servers": 2, "_meta": {"style": "lifecycle-sched"}}
+    # a request whose handler takes long to decide is being processed while stop() is called: stop() must still
+    # wait for the request-port thread (a bounded join gives up after a bounded number of turns)
+    for th in ([["start", "pause", "stop"]], [["start", "pause", "stop"], ["stop"]], [["start", "pause", "stop", "start"]],
+               [["start"], ["pause", "stop"]]):
+        for k in range(chunks):
+            yield {"kind": "lifecycle_sched", "server": "tftp", "threads": th, "order": list(range(len(th))), "busy": 60,
+                   "sweep": [k, chunks], "servers": 2, "max_steps": 20000, "_meta": {"style": "lifecycle-sched-busy"}}
     for i in range((150 if tier == "quick" else 6000) * mult):
         nt = rng.choice([2, 2, 3])
         th = [PROGRAMS[rng.randrange(len(PROGRAMS))] for _ in range(nt)]
